@@ -9,6 +9,11 @@ use std::panic::{self, AssertUnwindSafe};
 
 // ---------------------------------------------------------------- PRNG (own code)
 
+/// Long inputs are recorded in violation details by length plus their last 1500 bytes (a case is replayable from its index).
+pub fn tail(t: &[u8]) -> &[u8] {
+    &t[t.len().saturating_sub(1500)..]
+}
+
 #[derive(Clone)]
 pub struct Rng(u64);
 
